@@ -126,6 +126,87 @@ fn observe(s: &Session, op: &str, a: Node, b: Node) -> Pre {
     Pre { moved: b, moved_text: txt(b), follower, total: total_text(s) }
 }
 
+/// One call with the `forest spec` / `forest specx` lines and the oracles; false = stop the history.
+fn step(s: &mut Session, sink: &mut Sink, op: &str, req: &str, x: usize, y: usize, cons: &mut bool, restrict: bool) -> bool {
+    sink.stat(&format!("op.{}", op));
+    let spec_op = matches!(op, "append" | "prepend" | "insert_after" | "insert_before" | "detach" | "remove" | "replace" | "unwrap" | "wrap");
+    let nonnormal = *cons && has_adjacent_text(s);
+    let pre = if spec_op { Some(observe(s, op, s.nodes[x], s.nodes[y])) } else { None };
+    let mark = sink.lines.len();
+    let resp = s.exec(sink, req);
+    sink.stat(&format!("resp.{}", resp.split(' ').next().unwrap()));
+    if resp == "panic" {
+        return false;
+    }
+    if op == "cons" {
+        *cons = req.ends_with('1');
+    }
+    if spec_op && resp.starts_with("ok") {
+        let pre = pre.unwrap();
+        if nonnormal {
+            sink.stat("spec.prestate-has-adjacent-text");
+        }
+        // oracle 0: with consolidation on, a call on a forest without adjacent text nodes
+        // must not leave adjacent text nodes ("text nodes that become adjacent are merged")
+        let left_adjacent = *cons && !nonnormal && has_adjacent_text(s);
+        if left_adjacent {
+            let sig = if op == "replace" {
+                "C05:replace-between-texts-leaves-adjacent-text".to_string()
+            } else {
+                format!("C05:{}-leaves-adjacent-text", op)
+            };
+            sink.fail("C05", &sig, &format!("{}: consolidation is on and the forest had no adjacent text nodes, afterwards it has", req), &s.history);
+        }
+        if (nonnormal && restrict) || left_adjacent {
+            sink.stat("spec.skipped");
+        } else {
+            // the spec request goes BEFORE the call's own line: the model answers it on
+            // the pre-state, the answer recorded here is the real post-state
+            let content = erase_labels(&s.dump());
+            sink.lines.insert(mark, (format!("forest spec {}", req), content));
+            // handle-for-handle cross-check inside the model, for the calls with an exact
+            // theorem (for `replace` next to the replacing node xot keeps the replacing
+            // text node, i.e. the survivor rule is not "the moved node never survives")
+            if op != "replace" {
+                sink.lines.insert(mark + 1, (format!("forest specx {}", req), "1".into()));
+            }
+            sink.stat("spec.checked");
+            sink.stat(&format!("spec.checked.{}", op));
+        }
+        // oracle 1: survivor of a merge at the new place
+        if let (Some(mt), Some((fol, ft))) = (&pre.moved_text, &pre.follower) {
+            if *cons && s.xot.is_removed(pre.moved) && !s.xot.is_removed(*fol) {
+                let now = s.xot.text_str(*fol).unwrap_or("").to_string();
+                if now == format!("{}{}", mt, ft) {
+                    sink.stat("merge.later-survives");
+                    sink.fail(
+                        "C05",
+                        "C05:text-placed-before-text-keeps-later-node",
+                        &format!("{}: the moved text node was placed before an existing text node; the existing (later) node survives with the merged data and the moved (earlier) node is destroyed", req),
+                        &s.history,
+                    );
+                }
+            }
+        }
+        if pre.moved_text.is_some() && *cons && s.xot.is_removed(pre.moved) && pre.follower.is_none() && op != "remove" && op != "replace" {
+            sink.stat("merge.earlier-survives");
+        }
+        // oracle 2: no character data appears or disappears in calls that destroy nothing
+        if !matches!(op, "remove" | "replace") {
+            let after = total_text(s);
+            if after != pre.total {
+                sink.fail(
+                    "C05",
+                    "C05:move-changes-character-data",
+                    &format!("{}: the text nodes held {} characters before and {} after", req, pre.total, after),
+                    &s.history,
+                );
+            }
+        }
+    }
+    true
+}
+
 pub fn one_history(rng: &mut Rng, sink: &mut Sink, n_ops: usize, allow_cons_off: bool, restrict: bool) {
     let mut s = Session::new();
     let mut cons = true;
@@ -175,85 +256,78 @@ pub fn one_history(rng: &mut Rng, sink: &mut Sink, n_ops: usize, allow_cons_off:
             }
             _ => unreachable!(),
         };
-        sink.stat(&format!("op.{}", op));
-        let spec_op = matches!(op, "append" | "prepend" | "insert_after" | "insert_before" | "detach" | "remove" | "replace" | "unwrap" | "wrap");
-        let nonnormal = cons && has_adjacent_text(&s);
-        let pre = if spec_op { Some(observe(&s, op, s.nodes[x], s.nodes[y])) } else { None };
-        let mark = sink.lines.len();
-        let resp = s.exec(sink, &req);
-        sink.stat(&format!("resp.{}", resp.split(' ').next().unwrap()));
-        if resp == "panic" {
+        if !step(&mut s, sink, op, &req, x, y, &mut cons, restrict) {
             return;
-        }
-        if op == "cons" {
-            cons = req.ends_with('1');
-        }
-        if spec_op && resp.starts_with("ok") {
-            let pre = pre.unwrap();
-            if nonnormal {
-                sink.stat("spec.prestate-has-adjacent-text");
-            }
-            // oracle 0: with consolidation on, a call on a forest without adjacent text nodes
-            // must not leave adjacent text nodes ("text nodes that become adjacent are merged")
-            let left_adjacent = cons && !nonnormal && has_adjacent_text(&s);
-            if left_adjacent {
-                let sig = if op == "replace" {
-                    "C05:replace-between-texts-leaves-adjacent-text".to_string()
-                } else {
-                    format!("C05:{}-leaves-adjacent-text", op)
-                };
-                sink.fail("C05", &sig, &format!("{}: consolidation is on and the forest had no adjacent text nodes, afterwards it has", req), &s.history);
-            }
-            if (nonnormal && restrict) || left_adjacent {
-                sink.stat("spec.skipped");
-            } else {
-                // the spec request goes BEFORE the call's own line: the model answers it on
-                // the pre-state, the answer recorded here is the real post-state
-                let content = erase_labels(&s.dump());
-                sink.lines.insert(mark, (format!("forest spec {}", req), content));
-                // handle-for-handle cross-check inside the model, for the calls with an exact
-                // theorem (for `replace` next to the replacing node xot keeps the replacing
-                // text node, i.e. the survivor rule is not "the moved node never survives")
-                if op != "replace" {
-                    sink.lines.insert(mark + 1, (format!("forest specx {}", req), "1".into()));
-                }
-                sink.stat("spec.checked");
-                sink.stat(&format!("spec.checked.{}", op));
-            }
-            // oracle 1: survivor of a merge at the new place
-            if let (Some(mt), Some((fol, ft))) = (&pre.moved_text, &pre.follower) {
-                if cons && s.xot.is_removed(pre.moved) && !s.xot.is_removed(*fol) {
-                    let now = s.xot.text_str(*fol).unwrap_or("").to_string();
-                    if now == format!("{}{}", mt, ft) {
-                        sink.stat("merge.later-survives");
-                        sink.fail(
-                            "C05",
-                            "C05:text-placed-before-text-keeps-later-node",
-                            &format!("{}: the moved text node was placed before an existing text node; the existing (later) node survives with the merged data and the moved (earlier) node is destroyed", req),
-                            &s.history,
-                        );
-                    }
-                }
-            }
-            if pre.moved_text.is_some() && cons && s.xot.is_removed(pre.moved) && pre.follower.is_none() && op != "remove" && op != "replace" {
-                sink.stat("merge.earlier-survives");
-            }
-            // oracle 2: no character data appears or disappears in calls that destroy nothing
-            if !matches!(op, "remove" | "replace") {
-                let after = total_text(&s);
-                if after != pre.total {
-                    sink.fail(
-                        "C05",
-                        "C05:move-changes-character-data",
-                        &format!("{}: the text nodes held {} characters before and {} after", req, pre.total, after),
-                        &s.history,
-                    );
-                }
-            }
         }
         s.exec(sink, "dump");
         if rng.chance(1, 6) {
             s.exec(sink, "inv");
+        }
+    }
+}
+
+/// All (operation, node, node) triples over all small forests: one element with up to three
+/// children drawn from {text, empty element, element with a text child}, plus a second
+/// parentless tree (a text node or an element).
+fn exhaustive(sink: &mut Sink) {
+    let alphabet = || -> Vec<GTree> {
+        vec![
+            GTree::leaf(GValue::Text("x".into())),
+            GTree::leaf(GValue::Element(3)),
+            GTree::new(GValue::Element(3), vec![GTree::leaf(GValue::Text("y".into()))]),
+        ]
+    };
+    let mut kid_lists: Vec<Vec<GTree>> = vec![vec![]];
+    let mut frontier: Vec<Vec<GTree>> = vec![vec![]];
+    for _ in 0..3 {
+        let mut next = vec![];
+        for l in &frontier {
+            for a in alphabet() {
+                // no adjacent text nodes in a freshly built list (any_append would merge them)
+                if matches!(a.v, GValue::Text(_)) && l.last().map(|k: &GTree| matches!(k.v, GValue::Text(_))).unwrap_or(false) {
+                    continue;
+                }
+                let mut l2 = l.clone();
+                l2.push(a);
+                next.push(l2);
+            }
+        }
+        kid_lists.extend(next.iter().cloned());
+        frontier = next;
+    }
+    let seconds = vec![GTree::leaf(GValue::Text("z".into())), GTree::leaf(GValue::Element(6))];
+    const OPS2: &[&str] = &["append", "prepend", "insert_after", "insert_before", "replace"];
+    const OPS1: &[&str] = &["detach", "remove", "unwrap", "wrap"];
+    for kids in &kid_lists {
+        for second in &seconds {
+            let forest = vec![GTree::new(GValue::Element(2), kids.clone()), second.clone()];
+            let n: usize = forest.iter().map(|t| t.size()).sum();
+            let mut run = |op: &str, a: usize, b: usize| {
+                let mut s = Session::new();
+                let mut cons = true;
+                s.exec(sink, "reset");
+                for t in &forest {
+                    build_ops(&mut s, sink, t);
+                }
+                let req = match op {
+                    "wrap" => format!("wrap {} 6", a),
+                    "detach" | "remove" | "unwrap" => format!("{} {}", op, a),
+                    _ => format!("{} {} {}", op, a, b),
+                };
+                sink.stat("exhaustive.cases");
+                step(&mut s, sink, op, &req, a, b, &mut cons, true);
+                s.exec(sink, "dump");
+            };
+            for a in 0..n {
+                for op in OPS1 {
+                    run(op, a, a);
+                }
+                for b in 0..n {
+                    for op in OPS2 {
+                        run(op, a, b);
+                    }
+                }
+            }
         }
     }
 }
@@ -264,6 +338,9 @@ pub fn run(seed: u64, count: usize, tier: &str, sink: &mut Sink) {
     // tier "explore": also ask the specification where consolidation is on but the forest
     // already holds adjacent text nodes (outside the proved scope; see Props/C05.lean)
     let restrict = tier != "explore";
+    if tier == "thorough" {
+        exhaustive(sink);
+    }
     for i in 0..count {
         one_history(&mut rng, sink, n_ops, i % 4 == 3, restrict);
     }
